@@ -65,13 +65,16 @@ def evaluate(f, path):
                 used.append(names[0])
                 # in the failing cell only the bytes asked about first are not a curve point (a fallback to other bytes parses)
                 return E.Ok(E.Tok("key-of(%s)" % names[0])) if (parse_ok or names[0] != used[0]) else E.Err(E.Tok("not-a-curve-point"))
-            if name in ("clone", "copied", "cloned", "to_owned", "into", "borrow") and len(args) == 1:
-                return args[0]
+            if name in ("clone", "copied", "cloned", "to_owned") and len(args) == 1:
+                return args[0]      # (`into` / `from` are left to the interpreter: a crate-local conversion is inlined - RF32 delegates
+                                    # the by-value conversions to the by-reference ones)
             return None
         heap = {}
         try:
             args = E.default_args(f, path, heap)
-            ret, it = E.run_it(f, path, args, heap, oracle)
+            # (the crate's own conversions between key types are evaluated also on opaque values: a conversion may delegate to its sibling)
+            inl = tuple(p for p in f.bodies if p.startswith("<keys::") and "std::convert::" in p)
+            ret, it = E.run_it(f, path, args, heap, oracle, inline=inl)
             got = E.describe(it.resolve(ret), f)
         except E.Unsupported as e:
             return "UNSUPPORTED-FORM: %s" % str(e)[:160]
